@@ -52,7 +52,9 @@ PINFO = {'charge': ((), 'f', False), 'm_id': ((), 'i', True), 'mu': ((3,), 'f', 
          'force': ((3,), 'f', False), 'stress': ((3, 3), 'f', False), 'tag': ((), 'i', True), 'pe': ((), 'f', False),
          'disp': ((3,), 'f', False), 'radius': ((), 'f', True), 'torque': ((3,), 'f', False),
          # per-atom shapes with exactly one element that are not scalars
-         'single': ((1,), 'f', False), 'cell11': ((1, 1), 'f', False)}
+         'single': ((1,), 'f', False), 'cell11': ((1, 1), 'f', False),
+         # the image-count columns ix iy iz of a LAMMPS dump, which the dump loader itself creates
+         'boximage': ((3,), 'f', False)}
 TABLE_UNITS = {'charge': ['e', 'C', 'C', '1e-3*C', None], 'velocity': ['angstrom/ps', 'm/s', None], 'force': ['eV/angstrom', 'nN', None],
                'stress': ['GPa', 'bar', None], 'pe': ['eV', 'kJ/mol', None], 'disp': ['angstrom', 'nm', 'scaled', None],
                'tag': [None], 'mass': ['amu', 'g/mol'], 'single': [None], 'cell11': [None]}
@@ -76,7 +78,7 @@ class ChannelEngine(Engine):
                        'loss_natoms', 'loss_bounds', 'loss_atoms_section', 'loss_atoms_section_velocities_kept', 'stream_source', 'short_read_source', 'path_source',
                        'imageflags_written', 'tilted_cell', 'nonperiodic_dims', 'gapped_types', 'random_epoch',
                        'compared_cells_above_resolution', 'chained_transfer', 'poscar_cartesian', 'poscar_box_scale',
-                       'dump_scaled_columns', 'writer_prop_info_used', 'dest_path', 'dest_stream', 'table_with_id', 'io_error_load_raised', 'dump_two_position_forms', 'integer_typed_float_property']
+                       'dump_scaled_columns', 'writer_prop_info_used', 'dest_path', 'dest_stream', 'table_with_id', 'io_error_load_raised', 'dump_two_position_forms', 'integer_typed_float_property', 'same_path_rewritten']
     rule = ('Each run draws a working-unit epoch (atomman default or seeded random, so that unit-column mix-ups cannot hide behind '
             'factors of one) and performs up to 8 transfers. A transfer builds a system (or reuses the system loaded by the previous '
             'transfer): LAMMPS-compatible cell, orthogonal or tilted, any origin, 1-40 atoms inside / outside / on faces, 1-4 types '
@@ -206,7 +208,7 @@ class ChannelEngine(Engine):
         fresh = cur is None or r.random() < 0.5
         op = {'op': 'transfer', 'style': style, 'fmt': r.choice(FORMATS), 'dest': r.choice(['return', 'return', 'path', 'stream']),
               'src': r.choice(streams.SOURCE_KINDS), 'chunks': [r.choice([1, 2, 5, 17, 64, 4096]) for _ in range(4)],
-              'bufsize': r.choice([1, 16, 512, 8192]), 'chain': r.random() < 0.6}
+              'bufsize': r.choice([1, 16, 512, 8192]), 'chain': r.random() < 0.6, 'same_path': r.random() < 0.5}
         if cfg['fault_free'] and op['src'] in ('chunked', 'buffered'):
             op['src'] = 'bytesio'
         if op['src'] in ('chunked', 'buffered') and r.random() < 0.2:
@@ -230,7 +232,8 @@ class ChannelEngine(Engine):
                       natypes_extra=r.choice([0, 0, 1]))
             props = need
         elif style == 'atom_dump':
-            extra = r.sample(['charge', 'velocity', 'force', 'stress', 'tag', 'pe', 'm_id', 'mu', 'radius', 'torque', 'single', 'cell11'], r.randint(0, 4))
+            extra = r.sample(['charge', 'velocity', 'force', 'stress', 'tag', 'pe', 'm_id', 'mu', 'radius', 'torque', 'single', 'cell11',
+                              'boximage'], r.randint(0, 4))
             op.update(units=r.choice(UNIT_STYLES[:-1]), posvar=r.choice(['pos', 'pos', 'spos', 'upos', 'supos', 'default', 'pos+upos', 'upos+pos', 'spos+pos', 'pos+supos']),
                       use_prop_info=r.random() < 0.5, own_ids=r.random() < 0.3)
             props = extra
@@ -355,7 +358,13 @@ class ChannelEngine(Engine):
             nb = len(text.encode('utf-8'))
             if nb:
                 fail_at = min(nb - 1, int(io['u'] * nb))
-        obj, closer, raw = streams.make_source(op['src'], text, st['scratch'], 'r%d.txt' % st['nfile'], op['chunks'], op['bufsize'],
+        # half of the path sources re-use ONE file name per run: what is loaded must be what the file holds now
+        fname = 'again.txt' if (op['src'] == 'path' and op.get('same_path')) else 'r%d.txt' % st['nfile']
+        if fname == 'again.txt' and st.get('again_used'):
+            ctx.probe('same_path_rewritten')
+        if fname == 'again.txt':
+            st['again_used'] = True
+        obj, closer, raw = streams.make_source(op['src'], text, st['scratch'], fname, op['chunks'], op['bufsize'],
                                                fail_at=fail_at, fail_once=bool(io and io.get('once')))
         st['last_raw'] = raw
         if op['src'] == 'path':
@@ -631,7 +640,7 @@ class ChannelEngine(Engine):
         ptext, fired = channel.perturb_dump(text, op['plan'])
         fired = self._fired(ctx, fired)
         src, closer = self._source(ctx, st, ptext, op)
-        shaped_nonstandard = any(PINFO.get(nm, ((),))[0] != () and nm not in ('velocity', 'force', 'mu', 'torque') for nm in names)
+        shaped_nonstandard = any(PINFO.get(nm, ((),))[0] != () and nm not in ('velocity', 'force', 'mu', 'torque', 'boximage') for nm in names)
         use_pi = bool(op['use_prop_info']) or shaped_nonstandard
         lkw = {'lammps_units': units}
         if use_pi:
@@ -673,6 +682,18 @@ class ChannelEngine(Engine):
             self._resolution_probe(ctx, cur['pos'] / Lw, u_p / Lw)
         self._cmp_float(ctx, 'positions', got.atoms.view['pos'], cur['pos'], pos_tol, 'C08.L4', 'pos/' + klass, {'fmt': fmt, 'units': units})
         for nm in names:
+            if nm == 'boximage':
+                # written box-relative by the dump writer and converted back by the loader, like a scaled position
+                w = cur['props'][nm]
+                rel = geom.cart_to_rel(V, o, w)
+                u_s = self._u(fmt, rel)
+                colsum = np.abs(V).sum(axis=0)[None, :]
+                tol = (SAFETY * (u_s.max(axis=1)[:, None] * colsum + 4 * u_box * (np.abs(rel).sum(axis=1)[:, None] + 1))
+                       + 64 * EPS * self._kappa(V) * (np.abs(w) + colsum + float(np.abs(o).max())))
+                if nm not in got.atoms.view:
+                    raise Violation('C08.L5', {'what': 'carried property missing after load', 'property': nm}, klass='missing/%s/%s' % (nm, klass))
+                self._cmp_float(ctx, 'property ' + nm, got.atoms.view[nm], w, tol, 'C08.L5', 'prop/%s/%s/scaled' % (nm, klass))
+                continue
             unit = self._unit_of(nm, units) if nm in ('charge', 'velocity', 'force', 'mu', 'radius', 'torque', 'mass', 'diameter',
                                                       'ang_velocity', 'ang_momentum') else None
             self._cmp_prop(ctx, st, nm, got, cur, unit, fmt, klass)
